@@ -99,6 +99,8 @@ theorem templates_linear_tbl :
 /-- an identifier the macro's own templates never write -/
 def UserIdent (s : String) : Prop := ∀ row ∈ Tables.emit, ∀ t, row.2.2 = some t → litCount s t = 0
 
+instance (s : String) : Decidable (UserIdent s) := by unfold UserIdent; infer_instance
+
 theorem sum_range_ops (s : String) (ops : List Toks) :
     sumList ((List.range ops.length).map fun i => cntToks s ((ops[i]?).getD [])) = sumList (ops.map (cntToks s)) := by
   induction ops with
